@@ -86,3 +86,14 @@ Example C03_add_simplex_source_runs :
              [LInt 1; LInt 2; LInt 3] (Some (LInt 0)) [] (map (order_by []) (order_faces (subfaces (mkset [LInt 1; LInt 2; LInt 3])) [])) hg_empty in
   keys (h_edge (st_of r)) = [LInt 0; LInt 1; LInt 2; LInt 3] /\ h_uid (st_of r) = 4%Z.
 Proof. vm_compute. split; reflexivity. Qed.
+
+(* THE SOURCE TIE for the public remove_simplex_id.  Its body - the loop over the ids _supfaces_id returns, each removed through
+   _remove_simplex_id, then the simplex itself, the whole in `try ... except KeyError: raise XGIError` - is regenerated from the source
+   on every run; run on the ids of the strict supersets of the simplex (Model: supfaces_id; _supfaces_id itself stays hand-modelled),
+   it is the model's remove_simplex_id on every state satisfying the class invariant, for a present and for a missing id *)
+Theorem C03_remove_simplex_id_is_source : forall idx s, Inv s ->
+  run_remove_simplex_id src_sc_remove_simplex_id_public idx
+     (match get idx (h_edge s) with Some ms => supfaces_id s ms | None => [] end) s
+  = remove_simplex_id idx s.
+Proof. exact sc_remove_simplex_id_public_is_source. Qed.
+Print Assumptions C03_remove_simplex_id_is_source.
